@@ -618,25 +618,42 @@ def coerce(v, kind):
 
 # --------------------------------------------------------------------------- path control
 class PathCtl:
-    """decision oracle for re-execution based path enumeration"""
+    """decision oracle for re-execution based path enumeration.
+
+    trace entries are (choice, n_alternatives, label); n == 1 records a decision that the solver found forced, so that a
+    re-execution of the same prefix does not repeat the feasibility queries."""
 
     def __init__(self, prefix=()):
         self.prefix = list(prefix)
         self.trace = []
 
+    def replaying(self):
+        return len(self.trace) < len(self.prefix)
+
+    def replay_next(self):
+        e = self.prefix[len(self.trace)]
+        self.trace.append(e)
+        return e[0]
+
+    def record_forced(self, c, label=''):
+        self.trace.append((c, 1, label))
+
     def choose(self, n, label=''):
         i = len(self.trace)
-        c = self.prefix[i] if i < len(self.prefix) else 0
-        self.trace.append((c, n, label))
-        return c
+        if i < len(self.prefix):
+            e = self.prefix[i]
+            self.trace.append(e)
+            return e[0]
+        self.trace.append((0, n, label))
+        return 0
 
     def next_prefix(self):
         tr = self.trace
         for i in range(len(tr) - 1, -1, -1):
-            c, n, _ = tr[i]
-            if c + 1 < n:
-                return [x[0] for x in tr[:i]] + [c + 1]
+            c, n, l = tr[i]
+            if n > 1 and c + 1 < n:
+                return list(tr[:i]) + [(c + 1, n, l)]
         return None
 
     def label(self):
-        return '.'.join('%s%d' % (l[:12], c) for c, n, l in self.trace) or 'straight'
+        return '.'.join('%s%d' % (l[:12], c) for c, n, l in self.trace if n > 1) or 'straight'
